@@ -795,3 +795,103 @@ Example eval_denotes_nonvacuous :
   ptr_strict cx1 (RRespBody (Some [47;97;126;49;98;47;49])) = true /\
   eval_str rx_ok1 rx_ex1 cx1 (print (RRespBody (Some [47;97;126;49;98;47;49]))) = OVal (VJ (JInt 5)).
 Proof. repeat split; vm_compute; reflexivity. Qed.
+
+
+(* ---------- nested link bodies: every leaf replaced at every depth; unresolvable iff some leaf is ---------- *)
+Section NestedProof.
+  Variable rx_ok : str -> bool.
+  Variable rx_extract : str -> str -> option str.
+  Variable cx : ctx.
+  Notation EN := (eval_nested rx_ok rx_extract cx).
+  Notation LOK := (leaves_ok rx_ok rx_extract cx).
+  Notation HU := (has_unres rx_ok rx_extract cx).
+  Notation SUB := (subst_nested rx_ok rx_extract cx).
+
+  Definition nested_spec (e : json) : Prop :=
+    LOK e = true -> EN e = if HU e then OVal VUnres else OVal (VJ (SUB e)).
+
+  Lemma nested_arr_go (l : list json) : Forall nested_spec l -> forall acc, forallb LOK l = true ->
+    (fix go (l : list json) (acc : list json) : outcome :=
+       match l with
+       | [] => OVal (VJ (JArr (rev acc)))
+       | x :: r => match EN x with
+                   | OVal (VJ j) => go r (j :: acc)
+                   | OVal VUnres => OVal VUnres
+                   | OVal _ => OVal VOpaque
+                   | other => other
+                   end
+       end) l acc
+    = if existsb HU l then OVal VUnres else OVal (VJ (JArr (rev acc ++ map SUB l))).
+  Proof.
+    intros HF. induction HF as [|x l Hx _ IH]; intros acc Hok.
+    - cbn. rewrite app_nil_r. reflexivity.
+    - cbn [forallb] in Hok. apply andb_true_iff in Hok. destruct Hok as [Hx' Hl].
+      cbn [existsb map]. rewrite (Hx Hx'). destruct (HU x); [reflexivity|].
+      cbn [orb]. rewrite (IH _ Hl). destruct (existsb HU l); [reflexivity|].
+      cbn [rev]. rewrite <- app_assoc. reflexivity.
+  Qed.
+
+  Lemma nested_obj_go (l : list (str * json)) : Forall (fun kv => nested_spec (snd kv)) l -> forall acc,
+    forallb (fun kv => key_ok rx_ok rx_extract cx (fst kv) && LOK (snd kv)) l = true ->
+    (fix go (l : list (str * json)) (acc : list (str * json)) : outcome :=
+       match l with
+       | [] => OVal (VJ (JObj acc))
+       | (k, x) :: r =>
+           match key_of (eval_str rx_ok rx_extract cx k) with
+           | OVal (VJ (JStr k')) =>
+               match EN x with
+               | OVal (VJ j) => go r (assoc_set k' j acc)
+               | OVal VUnres => OVal VUnres
+               | OVal _ => OVal VOpaque
+               | other => other
+               end
+           | OVal VUnres => OVal VUnres
+           | OVal _ => OVal VOpaque
+           | other => other
+           end
+       end) l acc
+    = if existsb (fun kv => is_unres_o (evk rx_ok rx_extract cx (fst kv)) || HU (snd kv)) l then OVal VUnres
+      else OVal (VJ (JObj (fold_left (fun acc kv => assoc_set (leaf_key rx_ok rx_extract cx (fst kv)) (SUB (snd kv)) acc) l acc))).
+  Proof.
+    intros HF. induction HF as [|[k x] l Hx _ IH]; intros acc Hok.
+    - reflexivity.
+    - cbn [forallb fst snd] in Hok. apply andb_true_iff in Hok. destruct Hok as [Hkx Hl].
+      apply andb_true_iff in Hkx. destruct Hkx as [Hk Hx'].
+      cbn [existsb fold_left fst snd]. cbn [snd] in Hx.
+      unfold key_ok, evk, ev in Hk. unfold evk, ev, leaf_key, evk, ev.
+      destruct (key_of (eval_str rx_ok rx_extract cx k)) as [[[| | |s| |]| | |]| |]; try discriminate Hk.
+      + cbn [is_unres_o orb]. rewrite (Hx Hx'). destruct (HU x); [reflexivity|]. apply IH. exact Hl.
+      + reflexivity.
+  Qed.
+
+  Lemma nested_denotes e : nested_spec e.
+  Proof.
+    induction e using json_ind'; unfold nested_spec; cbn [leaves_ok has_unres subst_nested]; intros Hok; try reflexivity.
+    - cbn [eval_nested]. unfold value_ok, ev in Hok. unfold ev, leaf_value, ev.
+      destruct (eval_str rx_ok rx_extract cx s) as [[j| | |]| |]; try discriminate Hok; reflexivity.
+    - cbn [eval_nested]. rewrite (nested_arr_go l H [] Hok). reflexivity.
+    - cbn [eval_nested]. rewrite (nested_obj_go kvs H [] Hok). reflexivity.
+  Qed.
+
+  Lemma evaluate_nested_is e : evaluate rx_ok rx_extract cx e true = EN e.
+  Proof. destruct e; reflexivity. Qed.
+
+  Lemma nested_body_denotes e : LOK e = true ->
+    evaluate rx_ok rx_extract cx e true = if HU e then OVal VUnres else OVal (VJ (SUB e)).
+  Proof. intros H. rewrite evaluate_nested_is. exact (nested_denotes e H). Qed.
+End NestedProof.
+
+(* non-vacuity: an array of objects holding an array of objects (depth 4), expressions in keys and values; and the same
+   shape with one unresolvable leaf at the bottom *)
+Definition nb_ok : json :=
+  JObj [([97], JArr [JObj [([36;109;101;116;104;111;100],                                  (* key $method *)
+                           JArr [JObj [([99], JStr [36;115;116;97;116;117;115;67;111;100;101])]; JInt 1])]])].   (* $statusCode *)
+Definition nb_unres : json :=
+  JArr [JArr [JObj [([99], JStr [36;114;101;115;112;111;110;115;101;46;98;111;100;121;35;47;122])]]].   (* $response.body#/z *)
+Example nested_nonvacuous :
+  leaves_ok rx_any rx_none cx1 nb_ok = true /\ has_unres rx_any rx_none cx1 nb_ok = false /\
+  evaluate rx_any rx_none cx1 nb_ok true =
+    OVal (VJ (JObj [([97], JArr [JObj [([71;69;84], JArr [JObj [([99], JStr [50;48;49])]; JInt 1])]])])) /\
+  leaves_ok rx_any rx_none cx1 nb_unres = true /\ has_unres rx_any rx_none cx1 nb_unres = true /\
+  evaluate rx_any rx_none cx1 nb_unres true = OVal VUnres.
+Proof. repeat split; vm_compute; reflexivity. Qed.
